@@ -57,8 +57,9 @@ static inline uint64_t
 digit2int(const char c)
 {
     uint64_t rv = 0u;
+    const char lc = (char)tolower((unsigned char)c);
     while (rv < 16) {
-        if (digits[rv] == c)
+        if (digits[rv] == lc)
             return rv;
         rv++;
     }
